@@ -275,6 +275,33 @@ class Env:
 
 
 
+def ite_leaves(t, limit=64):
+    """Constant leaves of an if-then-else tree (None if some leaf is not a constant): a cheap
+    over-approximation of the values a merged term can take."""
+    out = set()
+    stack = [t]
+    seen = set()
+    while stack:
+        x = stack.pop()
+        if isinstance(x, int):
+            out.add(x)
+            continue
+        i = x.get_id()
+        if i in seen:
+            continue
+        seen.add(i)
+        if z3.is_bv_value(x):
+            out.add(x.as_long())
+        elif z3.is_app_of(x, z3.Z3_OP_ITE):
+            stack.append(x.arg(1))
+            stack.append(x.arg(2))
+        else:
+            return None
+        if len(out) > limit:
+            return None
+    return out
+
+
 def compute_ipdom(fn):
     """Immediate post-dominators of the blocks of `fn` (iterative data-flow on the reversed CFG)."""
     succ = {}
@@ -578,7 +605,7 @@ class Engine:
                 x = s.model().eval(v, model_completion=True).as_long()
                 vals.append(x)
                 if len(vals) > limit:
-                    raise Unsupported('more than %d feasible values for an address/selector %s' % (limit, v))
+                    raise Unsupported('more than %d feasible values for an address/selector' % limit)
                 s.add(v != x)
         finally:
             s.pop()
@@ -1316,7 +1343,8 @@ class Engine:
             return None
         cb = as_bool(c)
         ft = self.feasible(st, cb)
-        ff = self.feasible(st, z3.Not(cb))
+        # the path condition itself is feasible, so if one side is not the other one is
+        ff = self.feasible(st, z3.Not(cb)) if ft else True
         if ft and ff:
             s2 = st.fork()
             st.pc.append(cb)
@@ -1698,10 +1726,10 @@ class Engine:
             if is_conc(own):
                 opts.add(own)
             else:
-                try:
-                    opts |= set(self.values_of(st, as_bv(own, size * 8), limit=8))
-                except Unsupported:
+                lv = ite_leaves(own)
+                if lv is None:
                     return
+                opts |= lv
         if len(opts) == 1:
             st.pc.append(s == next(iter(opts)))
         else:
